@@ -296,28 +296,35 @@ structure Env where
   junk : Q            -- what `torch.empty` happens to contain
 deriving Repr, Inhabited
 
+/-- what a tensor collective hands back to the caller -/
+def recvTensors : Resp → Prog (Option (List Tensor))
+  | .tensors ts => .done (some ts)
+  | .unit => .done none                               -- non-destination rank of a `gather`
+  | _ => .fail .other
+
 /-- `_simple_send_tensors` -/
 def simpleSend (e : Env) (dst : Option Nat) (t : Tensor) : Prog (Option (List Tensor)) :=
   match dst with
-  | none => .coll (.allGather t) fun r =>
-      match r with | .tensors ts => .done (some ts) | _ => .fail .other
-  | some d => .coll (.gather d (e.me == d) t) fun r =>
-      match r with | .tensors ts => .done (some ts) | .unit => .done none | _ => .fail .other
+  | none => .coll (.allGather t) recvTensors
+  | some d => .coll (.gather d (e.me == d) t) recvTensors
+
+/-- the trimming loop of `_send_uneven_tensors` (`if gathered_result:`). -/
+def trimK (shapes : List (List Nat)) : Option (List Tensor) → Prog (Option (List Tensor))
+  | none => .done none
+  | some ts => .done (some (List.zipWith Tensor.slice ts shapes))
+
+/-- `_send_uneven_tensors` after the shapes have been gathered. -/
+def sendUnevenK (e : Env) (t : Tensor) : Option (List Tensor) → Prog (Option (List Tensor))
+  | none => .fail .assertion                          -- `assert local_sizes is not None`
+  | some sizes =>
+    let shapes := sizes.map shapeOf
+    let mx := pmax shapes
+    if mx == pmin shapes then simpleSend e e.dst t
+    else (simpleSend e e.dst (t.pad mx)).bind (trimK shapes)
 
 /-- `_send_uneven_tensors` -/
 def sendUneven (e : Env) (t : Tensor) : Prog (Option (List Tensor)) :=
-  (simpleSend e none (shapeTensor t)).bind fun r =>
-    match r with
-    | none => .fail .assertion                       -- `assert local_sizes is not None`
-    | some sizes =>
-      let shapes := sizes.map shapeOf
-      let mx := pmax shapes
-      if mx == pmin shapes then simpleSend e e.dst t
-      else
-        (simpleSend e e.dst (t.pad mx)).bind fun g =>
-          match g with
-          | none => .done none
-          | some ts => .done (some (List.zipWith Tensor.slice ts shapes))
+  (simpleSend e none (shapeTensor t)).bind (sendUnevenK e t)
 
 /-- `send_tensors` (inside an initialised process group) -/
 def sendTensors (e : Env) (t : Tensor) : Prog (Option (List Tensor)) :=
@@ -328,39 +335,55 @@ def assignCol : List TState → List TState → List TState
   | _ :: col, v :: vs => v :: assignCol col vs
   | col, _ => col
 
+def syncTensorK (col : List TState) : Option (List Tensor) → Prog (List TState)
+  | none => .done col
+  | some ts => if ts.length > col.length then .fail .index else .done (assignCol col (ts.map .tensor))
+
 /-- `_sync_tensor_states` on the column of this state. -/
 def syncTensor (e : Env) (t : Tensor) (col : List TState) : Prog (List TState) :=
-  (sendTensors e t).bind fun r =>
-    match r with
-    | none => .done col
-    | some ts => if ts.length > col.length then .fail .index else .done (assignCol col (ts.map .tensor))
+  (sendTensors e t).bind (syncTensorK col)
 
 def objInt : Obj → Option Int
   | .int n => some n
   | _ => none
 
+def recvObjs : Resp → Prog (List Obj)
+  | .objs os => .done os
+  | _ => .fail .other
+
 /-- `dist.all_gather_object(lst, o)`; answers the list. -/
-def allGatherObj (o : Obj) : Prog (List Obj) :=
-  .coll (.allGatherObj o) fun r => match r with | .objs os => .done os | _ => .fail .other
+def allGatherObj (o : Obj) : Prog (List Obj) := .coll (.allGatherObj o) recvObjs
+
+/-- `dtype, shape = object_list[0]` -/
+def recvDtypeShape : Resp → Prog (Option (DType × List Nat))
+  | .obj (.dsh d s) => .done (some (d, s))
+  | .obj _ => .fail .type                             -- `dtype, shape = None`
+  | _ => .fail .other
+
+/-- `rank_with_dtype = my_rank if tensor is not None else -1` -/
+def rankOrMinus1 (e : Env) (t : Option Tensor) : Int :=
+  match t with | some _ => (e.me : Int) | none => -1
+
+/-- `[(tensor.dtype, tensor.shape)]` on the chosen rank, `[None]` elsewhere. -/
+def dtypePayload (e : Env) (t : Option Tensor) (mx : Int) : Obj :=
+  match t with
+  | some x => if (e.me : Int) == mx then .dsh x.dtype x.shape else .none
+  | none => .none
+
+/-- `_sync_dtype_and_shape` after the `all_gather_object` of `rank_or_-1`. -/
+def syncDtypeShapeK (e : Env) (t : Option Tensor) (os : List Obj) : Prog (Option (DType × List Nat)) :=
+  match os.mapM objInt with
+  | none => .fail .type
+  | some rs =>
+    let mx := rs.foldl max (-1)                      -- `max(object_list)`; the own entry makes the list non-empty
+    if mx == -1 then .done none
+    else
+      -- `src=rank_with_dtype`: a group-relative number, handed to torch as a global rank
+      .coll (.broadcastObj mx.toNat (dtypePayload e t mx)) recvDtypeShape
 
 /-- `_sync_dtype_and_shape` -/
 def syncDtypeShape (e : Env) (t : Option Tensor) : Prog (Option (DType × List Nat)) :=
-  (allGatherObj (Obj.int (match t with | some _ => (e.me : Int) | none => -1))).bind fun os =>
-    match os.mapM objInt with
-    | none => .fail .type
-    | some rs =>
-      let mx := rs.foldl max (-1)                    -- `max(object_list)`; the own entry makes the list non-empty
-      if mx == -1 then .done none
-      else
-        let payload : Obj := match t with
-          | some x => if (e.me : Int) == mx then .dsh x.dtype x.shape else .none
-          | none => .none
-        -- `src=rank_with_dtype`: a group-relative number, handed to torch as a global rank
-        .coll (.broadcastObj mx.toNat payload) fun r =>
-          match r with
-          | .obj (.dsh d s) => .done (some (d, s))
-          | .obj _ => .fail .type                     -- `dtype, shape = None`
-          | _ => .fail .other
+  (allGatherObj (Obj.int (rankOrMinus1 e t))).bind (syncDtypeShapeK e t)
 
 def listCell : TState → List Tensor
   | .list l => l
@@ -376,38 +399,56 @@ def appendRound (i : Nat) : List TState → List Tensor → List Nat → List TS
 
 def dummy (e : Env) (d : DType) (s : List Nat) : Tensor := ⟨d, s, List.replicate (prod s) e.junk⟩
 
+/-- `_generate_dummy_tensor(...) if i >= len(my_state_data) else my_state_data[i]` -/
+def roundTensor (e : Env) (xs : List Tensor) (d : DType) (s : List Nat) (i : Nat) : Tensor :=
+  match xs[i]? with | some x => x | none => dummy e d s
+
+/-- the body of round `i` after `send_tensors` returned. -/
+def roundK (lens : List Nat) (i : Nat) (col : List TState) : Option (List Tensor) → Except Err (List TState)
+  | none => .ok col
+  | some ts => if ts.length > col.length then .error .index else .ok (appendRound i col ts lens)
+
+def liftE {R : Type} : Except Err R → Prog R
+  | .ok r => .done r
+  | .error e => .fail e
+
 /-- the `for i in range(max_length)` loop. -/
 def listRounds (e : Env) (xs : List Tensor) (lens : List Nat) (d : DType) (s : List Nat) :
     List Nat → List TState → Prog (List TState)
   | [], col => .done col
   | i :: is, col =>
-    let t := match xs[i]? with | some x => x | none => dummy e d s
-    (sendTensors e t).bind fun r =>
-      match r with
-      | none => listRounds e xs lens d s is col
-      | some ts => if ts.length > col.length then .fail .index else
-          listRounds e xs lens d s is (appendRound i col ts lens)
+    (sendTensors e (roundTensor e xs d s i)).bind fun r =>
+      (liftE (roundK lens i col r)).bind (listRounds e xs lens d s is)
 
 def objNat : Obj → Option Nat
   | .int n => if 0 ≤ n then some n.toNat else none
   | _ => none
 
+/-- all rounds, once dtype and shape of the dummies are known. -/
+def listGo (e : Env) (xs : List Tensor) (col : List TState) (lens : List Nat) (d : DType) (s : List Nat) :
+    Prog (List TState) :=
+  listRounds e xs lens d s (List.range (lens.foldl max 0)) col
+
+def syncListDS (e : Env) (xs : List Tensor) (col : List TState) (lens : List Nat) :
+    Option (DType × List Nat) → Prog (List TState)
+  | none => .done col                                 -- every rank is empty: the placeholder stays
+  | some (d, s) => listGo e xs col lens d s
+
+/-- `_sync_list_tensor_states` after the lengths have been gathered. -/
+def syncListK (e : Env) (xs : List Tensor) (col : List TState) (os : List Obj) : Prog (List TState) :=
+  match os.mapM objNat with
+  | none => .fail .type
+  | some lens =>
+    if lens.any (· == 0) then
+      (syncDtypeShape e xs.head?).bind (syncListDS e xs col lens)
+    else
+      match xs with
+      | x :: _ => listGo e xs col lens x.dtype x.shape
+      | [] => .fail .index                            -- unreachable: own length is in `lens`
+
 /-- `_sync_list_tensor_states` -/
 def syncList (e : Env) (xs : List Tensor) (col : List TState) : Prog (List TState) :=
-  (allGatherObj (Obj.int (xs.length : Int))).bind fun os =>
-    match os.mapM objNat with
-    | none => .fail .type
-    | some lens =>
-      let go (d : DType) (s : List Nat) := listRounds e xs lens d s (List.range (lens.foldl max 0)) col
-      if lens.any (· == 0) then
-        (syncDtypeShape e xs.head?).bind fun r =>
-          match r with
-          | none => .done col                         -- every rank is empty: the placeholder stays
-          | some (d, s) => go d s
-      else
-        match xs with
-        | x :: _ => go x.dtype x.shape
-        | [] => .fail .index                          -- unreachable: own length is in `lens`
+  (allGatherObj (Obj.int (xs.length : Int))).bind (syncListK e xs col)
 
 /-- insertion sort of keys (`sorted(d.keys())`) -/
 def insertKey (k : String) : List String → List String
@@ -427,13 +468,16 @@ def valuesByKeys {α : Type} (kv : List (String × α)) (ks : List String) : Lis
 def rezip (ks : List String) (cell : TState) : TState :=
   .dict (List.zip ks (listCell cell))
 
+/-- the re-zipping loop at the end of `_sync_dict_tensor_states` (receiving ranks only). -/
+def rezipAll (e : Env) (ks : List String) (col : List TState) : List TState :=
+  match e.dst with
+  | none => col.map (rezip ks)
+  | some d => if e.me == d then col.map (rezip ks) else col
+
 /-- `_sync_dict_tensor_states` -/
 def syncDict (e : Env) (kv : List (String × Tensor)) (col : List TState) : Prog (List TState) :=
   let ks := sortKeys (kv.map (·.1))
-  (syncList e (valuesByKeys kv ks) col).bind fun col' =>
-    match e.dst with
-    | none => .done (col'.map (rezip ks))
-    | some d => if e.me == d then .done (col'.map (rezip ks)) else .done col'
+  (syncList e (valuesByKeys kv ks) col).bind fun col' => .done (rezipAll e ks col')
 
 def objState : Obj → TState
   | .int n => .int n
@@ -443,13 +487,16 @@ def objState : Obj → TState
 def finishObj (col : List TState) (os : List Obj) : Prog (List TState) :=
   if os.length > col.length then .fail .index else .done (assignCol col (os.map objState))
 
+def recvObjCol (col : List TState) : Resp → Prog (List TState)
+  | .objs os => finishObj col os
+  | .unit => .done col                                -- non-destination rank of `gather_object`
+  | _ => .fail .other
+
 /-- `_sync_obj_states` -/
 def syncObj (e : Env) (o : Obj) (col : List TState) : Prog (List TState) :=
   match e.dst with
-  | none => .coll (.allGatherObj o) fun r =>
-      match r with | .objs os => finishObj col os | _ => .fail .other
-  | some d => .coll (.gatherObj d (e.me == d) o) fun r =>
-      match r with | .objs os => finishObj col os | .unit => .done col | _ => .fail .other
+  | none => .coll (.allGatherObj o) (recvObjCol col)
+  | some d => .coll (.gatherObj d (e.me == d) o) (recvObjCol col)
 
 /-- one state of the traversal: its column of `gathered_states`. -/
 def syncOne (e : Env) (st : TState) : Prog (List TState) :=
@@ -472,14 +519,17 @@ def syncCols (e : Env) : List (Key × TState) → Prog (List (List TState))
 def rowOf (keys : List Key) (cols : List (List TState)) (i : Nat) : List (Key × TState) :=
   List.zipWith (fun k c => (k, match c[i]? with | some v => v | none => placeholder)) keys cols
 
+/-- `return gathered_states` on receiving ranks, `None` elsewhere. -/
+def syncResult (e : Env) (keys : List Key) (cols : List (List TState)) : Option (List (List (Key × TState))) :=
+  let res := (List.range e.gws).map (rowOf keys cols)
+  match e.dst with
+  | none => some res
+  | some d => if e.me == d then some res else none
+
 /-- `sync_states` on an already flattened state collection (traversal order given):
     `None` on non-destination ranks, else one state collection per GLOBAL rank index. -/
 def syncFlat (e : Env) (entries : List (Key × TState)) : Prog (Option (List (List (Key × TState)))) :=
-  (syncCols e entries).bind fun cols =>
-    let res := (List.range e.gws).map (rowOf (entries.map (·.1)) cols)
-    match e.dst with
-    | none => .done (some res)
-    | some d => if e.me == d then .done (some res) else .done none
+  (syncCols e entries).bind fun cols => .done (syncResult e (entries.map (·.1)) cols)
 
 /-- `metrics_traversal_order`: sorted metric names, then sorted state names. -/
 def traversal (sd : List (String × List (String × TState))) : List (Key × TState) :=
@@ -511,10 +561,6 @@ def statesOf (m : String) (row : List (Key × TState)) : List (String × TState)
 def othersIdx (n me : Nat) : List Nat := (List.range n).filter (· != me)
 
 def pick {α : Type} (xs : List α) (is : List Nat) : List α := is.filterMap (xs[·]?)
-
-def liftE {R : Type} : Except Err R → Prog R
-  | .ok r => .done r
-  | .error e => .fail e
 
 /-- `get_synced_metric(metric, process_group)`; `init = dist.is_available() and dist.is_initialized()`.
     The world-size-1 / uninitialised short-circuit returns the input object itself. -/
